@@ -1043,6 +1043,7 @@ func (t *fnTrans) entryEnv(st *State) *Env {
 // localEnv: names resolve to parameters' entry values unless shadowed by a live local cell.
 func (t *fnTrans) localEnv(st *State, at *ssa.BasicBlock) *Env {
 	e := t.entryEnv(st)
+	e.at = at
 	e.local = func(name string) (Val, types.Type, bool) {
 		a, ok := t.cellByName(name, at)
 		if !ok {
